@@ -21,8 +21,9 @@ TECHNIQUE = 'abstract interpretation of decl.c with scripted token cursor -> per
 # ------------------------------------------------------------------ declaration alphabet
 
 class D:
-    __slots__ = ('kind', 'scope', 'sc', 'inline', 'init', 'asm', 'ty', 'nofs')
-    def __init__(self, kind, scope, sc, inline=False, init=False, asm=False, ty=('int', 0), nofs=False):
+    __slots__ = ('kind', 'scope', 'sc', 'inline', 'init', 'asm', 'ty', 'nofs', 'fty')
+    def __init__(self, kind, scope, sc, inline=False, init=False, asm=False, ty=('int', 0), nofs=False, fty=None):
+        self.fty = fty    # (return type class, [parameter type classes]) of a function declaration; None: int(void)
         self.kind, self.scope, self.sc, self.inline, self.init, self.asm = kind, scope, frozenset(sc), inline, init, asm
         self.ty = ty      # (type name, qualifiers) of an object declaration
         self.nofs = nofs  # function type that comes from a typedef name: the declarator has no parameter list of its own
@@ -173,6 +174,31 @@ class DeclWorld:
         self.asmname = Ptr(it.mkstr(list(b'next_x'), 'next_x'), (0,))
         self.tokobj = it.gobj('tok')
         self.nblocks = 0
+        self.cache = {}
+
+    def tyclass(self, name):
+        """type classes for function signatures: a basic type name, 'Scomplete' / 'Sincomplete' (struct), 'Eincomplete' (enum declared with a fixed underlying type only), 'P' + class (pointer)"""
+        if name in self.cache: return self.cache[name]
+        w = self.w
+        if name.startswith('P'): t = w.mkptr(self.tyclass(name[1:]))
+        elif name == 'Scomplete': t = w.mkstruct(size=8, align=4); t.obj.f[('incomplete',)] = 0
+        elif name == 'Sincomplete': t = w.mkstruct(size=0, align=0); t.obj.f[('incomplete',)] = 1
+        else: t = w.t(name)
+        self.cache[name] = t
+        return t
+
+    def mkfunctype(self, ret, params):
+        it = self.it; p = self.p
+        ft = it.call('mktype', [ev(p, 'TYPEFUNC'), 0]); o = ft.obj
+        o.f[('base',)] = self.tyclass(ret); o.f[('qual',)] = 0; o.f[('size',)] = 0; o.f[('align',)] = 0; o.f[('incomplete',)] = 0
+        first = prev = None
+        for pn in params:
+            d = it.call('mkdecl', [None, ev(p, 'DECLOBJECT'), self.tyclass(pn), 0, ev(p, 'LINKNONE')])
+            if prev is not None: prev.obj.f[('next',)] = d
+            else: first = d
+            prev = d
+        o.f[('u', 'func', 'isvararg')] = 0; o.f[('u', 'func', 'params')] = first; o.f[('u', 'func', 'nparam')] = len(params)
+        return ft
 
     def block(self):
         self.nblocks += 1
@@ -206,7 +232,7 @@ def decl_models(prog, dw_holder):
         if d.kind == 'func':
             fsobj = Obj('funcscope', 'heap'); fsobj.f[('parent',)] = s
             it.assign(funcscope.obj, funcscope.path, None if d.nofs else Ptr(fsobj, ()))
-            return StructVal({('type',): dw.functype, ('qual',): 0, ('expr',): None})
+            return StructVal({('type',): dw.functype if d.fty is None else dw.mkfunctype(*d.fty), ('qual',): 0, ('expr',): None})
         it.assign(funcscope.obj, funcscope.path, None)
         return StructVal({('type',): dw.w.t(d.ty[0]), ('qual',): d.ty[1], ('expr',): None})
     def consume(it, a, e):
